@@ -180,7 +180,7 @@ def validate_rows(chk, module, row_files, constants=None, *, name="rows", timeou
             for line in f:
                 if f'"{canary_field}":"T"' in line:
                     r = json.loads(line)
-                    r[canary_field] = "F"
+                    r[canary_field] = "CANARY"     # a verdict no specification allows
                     r["id"] = CANARY_ID
                     canary = os.path.join(chk.workdir, f"canary_{module}_{name}.ndjson")
                     with open(canary, "w") as g:
